@@ -2,6 +2,7 @@
 """C10 -- Literature citations survive assembly with consistent numbering."""
 from __future__ import annotations
 
+import copy
 import random
 
 from pyvc import term as tm
@@ -63,6 +64,14 @@ def lemmas(ctx):
 
 
 # ---------------------------------------------------------------------------------------------- bounded
+REF_FIELDS = ("title", "journal", "comment", "pubmed_id", "authors", "medline_id", "consrtm", "location")
+
+
+def refkey(r):
+    """identity of a reference for the oracle: all the fields Bio.SeqFeature.Reference.__eq__ compares"""
+    return "|".join(repr(getattr(r, f, None)) for f in REF_FIELDS)
+
+
 def build(ctx, ns, rng, nrefs, shared, dup_refs):
     from Bio.Seq import Seq
     from Bio.SeqFeature import SeqFeature, FeatureLocation, Reference
@@ -74,8 +83,20 @@ def build(ctx, ns, rng, nrefs, shared, dup_refs):
     ov = ["AACC", "GGAT", "CTAA"]
 
     def ref(title):
+        # two references are the same exactly when *every* field agrees (Reference.__eq__): a reference is told apart
+        # from the others by one field only, the field changing from reference to reference (title, journal -- as in
+        # GenBank `Direct Submission` entries --, comment, pubmed id, authors ...), all other fields being common
         r = Reference()
-        r.title, r.authors, r.journal = title, "Doe J.", "J. Irreproducible Results"
+        r.title, r.authors, r.journal = "Direct Submission", "Doe J.", "J. Irreproducible Results"
+        if title == "shared reference":
+            r.title = title
+            return r
+        field = REF_FIELDS[sum(map(ord, title)) % len(REF_FIELDS)]
+        if field == "location":
+            r.location = [FeatureLocation(0, 1 + sum(map(ord, title)) % 7)]
+            r.comment = title   # (locations alone could collide)
+        else:
+            setattr(r, field, title)
         return r
 
     common = ref("shared reference")
@@ -85,7 +106,7 @@ def build(ctx, ns, rng, nrefs, shared, dup_refs):
         if shared and refs:
             refs[0] = ref("shared reference")
         if dup_refs and len(refs) >= 2:
-            refs[1] = ref(refs[0].title)          # two equal entries in one reference list
+            refs[1] = copy.deepcopy(refs[0])      # two equal entries in one reference list
         feats = []
         cites = []
         if nrefs >= 1:
@@ -137,7 +158,7 @@ def bounded(ctx):
                     refs = x.record.annotations.get("references", [])
                     for f in x.record.features:
                         lab = f.qualifiers["label"][0]
-                        src_refs[lab] = [refs[int(c[1:-1]) - 1].title for c in f.qualifiers.get("citation", [])]
+                        src_refs[lab] = [refkey(refs[int(c[1:-1]) - 1]) for c in f.qualifiers.get("citation", [])]
                 for call in range(3):
                     evals += 1
                     got, prod, w = ba.run_assembly(vec, mods)
@@ -147,7 +168,7 @@ def bounded(ctx):
                         break
                     distinct.add((cfg, call))
                     prefs = prod.annotations.get("references", [])
-                    titles = [r.title for r in prefs]
+                    titles = [refkey(r) for r in prefs]
                     cited = set()
                     for f in prod.features:
                         if f.type == "source" and "plasmid" in f.qualifiers:
@@ -165,8 +186,8 @@ def bounded(ctx):
                                 viol.append(dict(name="range_%s" % cfg, what="%s: product citation %r out of range (%d references)" % (cfg, c, len(prefs)), case=dict(cfg=cfg)))
                                 resolved = None
                                 break
-                            resolved.append(prefs[k - 1].title)
-                            cited.add(prefs[k - 1].title)
+                            resolved.append(refkey(prefs[k - 1]))
+                            cited.add(refkey(prefs[k - 1]))
                         if resolved is not None and resolved != src_refs.get(lab, []):
                             viol.append(dict(name="target_%s" % cfg, what="%s: product feature %s cites %r, its source feature cited %r" % (cfg, lab, resolved, src_refs.get(lab)), case=dict(cfg=cfg)))
                     if len(titles) != len(set(titles)):
@@ -222,7 +243,9 @@ def check_ref_pass(ns, feats_spec, r0_spec):
 
     def ref(k):
         r = Reference()
-        r.title = "ref %d" % k
+        r.title, r.authors = "Direct Submission", "Doe J."
+        setattr(r, ("journal", "title", "comment", "pubmed_id")[k % 4], "ref %d" % k)   # told apart by one field only
+        r.tag = "ref %d" % k        # oracle-side name (not a field Reference.__eq__ looks at)
         return r
 
     pool = {k: ref(k) for k in range(4)}
@@ -240,9 +263,9 @@ def check_ref_pass(ns, feats_spec, r0_spec):
     if R is None:
         return ["no reference list afterwards"]
     r0 = list(r0_spec or [])
-    if [x.title for x in R[:len(r0)]] != ["ref %d" % k for k in r0]:
+    if [getattr(x, "tag", None) for x in R[:len(r0)]] != ["ref %d" % k for k in r0]:
         pb.append("initial-references-are-kept-in-place")
-    titles = [x.title for x in R]
+    titles = [getattr(x, "tag", None) for x in R]
     if len(set(titles)) != len(titles):
         pb.append("no-reference-listed-twice")
     cited = {"ref %d" % k for cs in feats_spec if cs for k in cs}
@@ -255,7 +278,7 @@ def check_ref_pass(ns, feats_spec, r0_spec):
             continue
         for c, k in zip(got, cs or []):
             ok = isinstance(c, str) and c.startswith("[") and c.endswith("]") and c[1:-1].isdigit() and 1 <= int(c[1:-1]) <= len(R) \
-                and c == "[%d]" % int(c[1:-1]) and R[int(c[1:-1]) - 1].title == "ref %d" % k
+                and c == "[%d]" % int(c[1:-1]) and getattr(R[int(c[1:-1]) - 1], "tag", None) == "ref %d" % k
             if not ok:
                 pb.append("every-citation-is-the-bracketed-1-based-index-of-its-reference (entry %r for reference %d, list %r)" % (c, k, titles))
     return pb
